@@ -363,6 +363,53 @@ pub fn replay_reject_suffixes(out: &mut Out, v: &Vocab, e: &str, b: &Beh, pol: &
     }
 }
 
+/// Long left-leaning chains of one precedence level (30 to 70 terms, up to 256 characters): `a + b - c + ...` and `a * b / c * ...`
+/// over operands whose grouping matters (a value at the edge of the format among small ones).  The tree is the left-leaning one
+/// (C04: equal precedence associates to the left); the value is the reference interpreter's on that tree, node by node.
+pub fn long_chains(out: &mut Out, e: &str, rng: &mut Rng, n: usize) {
+    use crate::render::Asg;
+    use crate::tree::T;
+    let (big, small): (Vec<&str>, Vec<&str>) = match e {
+        "f64" => (vec!["9007199254740992", "10000000000000000", "4503599627370496.5", "18014398509481984"], vec!["1", "0.1", "0.5", "3", "0.3", "7", "2"]),
+        "i64" => (vec!["9223372036854775807", "4611686018427387904", "9223372036854775806"], vec!["1", "2", "3", "7", "1", "4"]),
+        "dec" => (vec!["7922816251426433759354395033", "3961408125713216879677197516", "792281625142643375935439503", "0.0000000000000000000000000001"], vec!["1", "3", "0.5", "7", "2", "1"]),
+        "cpx" => (vec!["9007199254740992", "10000000000000000i", "4503599627370496.5"], vec!["1", "0.1i", "0.5", "3i", "2", "7"]),
+        _ => (vec!["9007199254740992", "9223372036854775807", "4611686018427387904", "9007199254740993"], vec!["1", "0.5", "3", "0.1", "2", "7"]),
+    };
+    // eval_number: two chains of three over Integers only (the variant of a result with a Float operand is left open, and with it
+    // the exactness of what follows)
+    let ints_only: Vec<&str> = vec!["1", "3", "2", "7", "1", "5"];
+    let ph = default_placeholder(e);
+    for item in 0..n {
+        out.heartbeat(item as u64);
+        out.stats.items += 1;
+        let additive = item % 4 != 3;
+        let terms = 30 + rng.below(41);
+        let mut text = String::new();
+        let mut asg = Asg::default();
+        let mut tree: Option<T> = None;
+        let mut kinds: Vec<String> = Vec::new();
+        let nbig = 1 + rng.below(3);
+        let big_at: Vec<usize> = (0..nbig).map(|_| rng.below(terms)).collect();
+        for k in 0..terms {
+            let small: &Vec<&str> = if e == "num" && item % 3 != 2 { &ints_only } else { &small };
+            let lit = if big_at.contains(&k) { big[rng.below(big.len())] } else { small[rng.below(small.len())] };
+            let op = if additive { if rng.below(2) == 0 { "add" } else { "sub" } } else if rng.below(3) == 0 { "div" } else { "mul" };
+            if k > 0 { text.push_str(match op { "add" => "+", "sub" => "-", "mul" => "*", _ => "/" }); kinds.push(op.to_string()); }
+            if text.chars().count() + lit.len() > 255 { text.pop(); kinds.pop(); break; }
+            text.push_str(lit);
+            kinds.push("num".into());
+            let pos = kinds.len();
+            let (body, im) = crate::render::split_lit(lit);
+            asg.lits.insert(pos, (body, im));
+            tree = Some(match tree { None => T::Num(pos), Some(l) => T::Bin(op.to_string(), Box::new(l), Box::new(T::Num(pos))) });
+        }
+        let t = tree.unwrap();
+        let exp = crate::expect::expected(e, &t, &asg, &ph);
+        checked_call(out, e, &text, &ph, Some(&exp), json!({"kinds": kinds, "v": "accept"}), true, &json!({"chain": if additive { "additive" } else { "multiplicative" }, "terms": terms}));
+    }
+}
+
 /// boundary-value pools named in the statements of C05, C06, C07, C09 (literals are non-negative text;
 /// negative operands arrive through `@` and through prefix minus, which the enumerated sequences contain)
 pub fn boundary_lits(e: &str) -> Vec<String> {
